@@ -543,7 +543,7 @@ def check_c18(tier, deadline):
     rep = Report("C18", tier, "model_checking")
     bdir = build("sched", ("drv_sched",))
     sc = scratch_dir("c18"); out = os.path.join(sc, "out.json")
-    cmd = [os.path.join(bdir, "drv_sched"), "--tier", tier, "--workers", str(WORKERS), "--deadline", str(deadline * 0.7), "--scratch", sc, "--out", out]
+    cmd = [os.path.join(bdir, "drv_sched"), "--tier", tier, "--workers", str(WORKERS), "--deadline", str(max(deadline * 0.7, 240 if tier == "quick" else 0)), "--scratch", sc, "--out", out]
     r = sh(cmd, capture_output=True, text=True)
     if r.returncode != 0 or not os.path.exists(out):
         log("driver failed", " ".join(cmd), r.stdout[-1000:], r.stderr[-1000:]); raise SystemExit(3)
